@@ -4,6 +4,16 @@
 //	conc   — random concurrent histories from 8 goroutines over 3 names with logical invocation/response timestamps
 //	forced — schedules forced through wasm.VerifYieldHook (and a yielding context for the notifier attachment):
 //	         enumerated / sampled schedules of small programs, plus the model's witness interleavings.
+//	         Window families: an instantiate (named / anonymous, binary / host) sits between two of its atomic steps
+//	         (after Store.instantiate and before registerModule; registered and not yet attached) while Runtime.Close
+//	         runs to completion — forced through the yield hook, and, without any hook, by user code that runs inside
+//	         InstantiateModule (a wasm start-section function / a "_start" export calling a host function that closes
+//	         the runtime).
+//
+// Anonymous modules (name 0) come in three flavours chosen by the instance id: id%3 == 0 WithName(""), id%3 == 1 no
+// WithName on a binary without a name section, id%3 == 2 WithName("") on a binary WITH a name section. Host modules are
+// always named (wasm.NewHostModule rejects the empty name).
+// Every concurrent / forced history ends with IsClosed probes of every module that was handed out.
 //
 // One JSON object per line on stdout.
 package main
@@ -60,20 +70,28 @@ type Event struct {
 	Ret []any `json:"ret"`
 	Inv int64 `json:"inv"`
 	Res int64 `json:"res"`
+	// instantiate that returned a module: [tick taken after the return, 1 if IsClosed() was false when sampled after that tick]
+	Obs []int64 `json:"obs,omitempty"`
 }
 
 // ---------------------------------------------------------------------------------------------- counting resources
 type world struct {
-	r        wazero.Runtime
-	compiled wazero.CompiledModule
-	clock    atomic.Int64
-	notif    sync.Map // id -> *atomic.Int64
-	fsClosed sync.Map // id -> *atomic.Int64
-	fsOpened sync.Map // id -> *atomic.Int64
-	byPtr    sync.Map // *wasm.ModuleInstance -> id
-	handles  sync.Map // id -> api.Module
-	insts    sync.Map // id -> *wasm.ModuleInstance
-	isHost   sync.Map // id -> bool
+	r         wazero.Runtime
+	compiled  wazero.CompiledModule
+	compiledN wazero.CompiledModule // the same module with a name section ("sect")
+	compiledS wazero.CompiledModule // start-section function calls n9.hook
+	compiledU wazero.CompiledModule // export "_start" calls n9.hook
+	flavour   map[int64]int         // instance id -> 1 start-section binary, 2 "_start" binary
+	hookFn    func(ctx context.Context)
+	notifyFn  func(id int64) // user code inside a close notification (runs inside the sweep of Runtime.Close)
+	clock     atomic.Int64
+	notif     sync.Map // id -> *atomic.Int64
+	fsClosed  sync.Map // id -> *atomic.Int64
+	fsOpened  sync.Map // id -> *atomic.Int64
+	byPtr     sync.Map // *wasm.ModuleInstance -> id
+	handles   sync.Map // id -> api.Module
+	insts     sync.Map // id -> *wasm.ModuleInstance
+	isHost    sync.Map // id -> bool
 }
 
 func ctr(m *sync.Map, id int64) *atomic.Int64 {
@@ -114,6 +132,9 @@ type notifier struct {
 
 func (n *notifier) CloseNotify(ctx context.Context, exitCode uint32) {
 	ctr(&n.w.notif, n.id).Add(1)
+	if fn := n.w.notifyFn; fn != nil {
+		fn(n.id)
+	}
 	if th := curThread(); th != nil && th.yieldNotify {
 		th.yield("notify")
 	}
@@ -128,6 +149,7 @@ type thread struct {
 	atomicMode    bool // close-atomic schedules: no yield between CAS and delete
 	yieldNotify   bool
 	inHostCompile bool
+	obs           []int64
 	resume        chan struct{}
 	at            chan string // to controller: point name, or "done"
 }
@@ -196,7 +218,8 @@ func (y yctx) Value(key any) any {
 }
 
 // ---------------------------------------------------------------------------------------------- running one operation
-var bin, bin2 []byte // bin2: a different binary for compile operations (compiled modules of one binary share their engine entry)
+var bin, bin2 []byte        // bin2: a different binary for compile operations (compiled modules of one binary share their engine entry)
+var binN, binS, binU []byte // name section "sect"; start section calling n9.hook; "_start" export calling n9.hook
 
 func mkBin(k int32) []byte {
 	m := &c.Mod{}
@@ -207,7 +230,41 @@ func mkBin(k int32) []byte {
 	return m.Bytes()
 }
 
-func init() { bin, bin2 = mkBin(7), mkBin(8) }
+// nameSec is a custom "name" section that names the module.
+func nameSec(mod string) []byte {
+	sub := c.Name(mod)
+	return c.Cat(c.Name("name"), c.B(0), c.U32(uint32(len(sub))), sub)
+}
+
+// mkHookBin: (import "n9" "hook" (func)) (func $g call 0) (func (export "f") (result i32) i32.const 9), with $g either the
+// start-section function (runs inside Store.instantiate, before registerModule) or the export "_start" (run by
+// InstantiateModule after registration).
+func mkHookBin(startSection bool) []byte {
+	m := &c.Mod{}
+	m.Types = [][]byte{c.FT(nil, nil), c.FT(nil, c.B(c.I32))}
+	m.Imports = [][]byte{c.ImportFunc("n9", "hook", 0)}
+	m.Funcs = [][]byte{c.U32(0), c.U32(1)}
+	m.Exports = [][]byte{c.Export("f", 0, 2)}
+	if startSection {
+		m.Start = c.U32(1)
+	} else {
+		m.Exports = append(m.Exports, c.Export("_start", 0, 1))
+	}
+	m.Codes = [][]byte{c.Code(nil, c.Call(0)), c.Code(nil, c.I32Const(9))}
+	return m.Bytes()
+}
+
+func init() {
+	bin, bin2 = mkBin(7), mkBin(8)
+	mn := &c.Mod{}
+	mn.Types = [][]byte{c.FT(nil, c.B(c.I32))}
+	mn.Funcs = [][]byte{c.U32(0)}
+	mn.Exports = [][]byte{c.Export("f", 0, 0)}
+	mn.Codes = [][]byte{c.Code(nil, c.I32Const(6))}
+	mn.Custom = [][]byte{nameSec("sect")}
+	binN = mn.Bytes()
+	binS, binU = mkHookBin(true), mkHookBin(false)
+}
 
 func nameOf(n int64) string {
 	if n == 0 {
@@ -240,7 +297,22 @@ func newWorld(ctx context.Context) *world {
 		panic(err)
 	}
 	w.compiled = cm
+	if w.compiledN, err = w.r.CompileModule(ctx, binN); err != nil {
+		panic(err)
+	}
 	return w
+}
+
+// withHookBinaries compiles the two binaries whose instantiation runs user code (reentrant window family).
+func (w *world) withHookBinaries(ctx context.Context) {
+	var err error
+	if w.compiledS, err = w.r.CompileModule(ctx, binS); err != nil {
+		panic(err)
+	}
+	if w.compiledU, err = w.r.CompileModule(ctx, binU); err != nil {
+		panic(err)
+	}
+	w.flavour = map[int64]int{}
 }
 
 func (w *world) run(ctx context.Context, th *thread, op Op) (ret []any) {
@@ -263,14 +335,42 @@ func (w *world) run(ctx context.Context, th *thread, op Op) (ret []any) {
 		var mod api.Module
 		var err error
 		if host {
-			mod, err = w.r.NewHostModuleBuilder(name).NewFunctionBuilder().WithFunc(func() {}).Export("f").Instantiate(ictx)
+			mod, err = w.r.NewHostModuleBuilder(name).
+				NewFunctionBuilder().WithFunc(func() {}).Export("f").
+				NewFunctionBuilder().WithFunc(func(hctx context.Context) {
+				if fn := w.hookFn; fn != nil {
+					fn(hctx)
+				}
+			}).Export("hook").Instantiate(ictx)
 		} else {
-			cfg := wazero.NewModuleConfig().WithName(name).
+			cfg := wazero.NewModuleConfig().
 				WithFSConfig(wazero.NewFSConfig().(sysfs.FSConfig).WithSysFSMount(&cntFS{w: w, id: id}, "/"))
-			mod, err = w.r.InstantiateModule(ictx, w.compiled, cfg)
+			code := w.compiled
+			switch {
+			case w.flavour[id] == 1:
+				code, cfg = w.compiledS, cfg.WithName(name)
+			case w.flavour[id] == 2:
+				code, cfg = w.compiledU, cfg.WithName(name)
+			case name != "":
+				cfg = cfg.WithName(name)
+			case id%3 == 0: // anonymous: explicit empty name
+				cfg = cfg.WithName("")
+			case id%3 == 1: // anonymous: no name configured, no name section
+			default: // anonymous: the binary's name section is overridden by an explicit empty name
+				code, cfg = w.compiledN, cfg.WithName("")
+			}
+			mod, err = w.r.InstantiateModule(ictx, code, cfg)
 		}
 		if err == nil {
 			w.handles.Store(id, mod)
+			if th != nil {
+				chk := w.clock.Add(1)
+				open := int64(0)
+				if !mod.IsClosed() {
+					open = 1
+				}
+				th.obs = []int64{chk, open}
+			}
 		}
 		return classify(err)
 	case kLook:
@@ -348,29 +448,60 @@ func (w *world) run(ctx context.Context, th *thread, op Op) (ret []any) {
 
 func (w *world) timed(ctx context.Context, th *thread, thr int, op Op) Event {
 	inv := w.clock.Add(1)
+	var keep []int64
+	if th != nil {
+		keep, th.obs = th.obs, nil // a nested (reentrant) operation must not lose the outer one's observation
+	}
 	ret := w.run(ctx, th, op)
 	res := w.clock.Add(1)
-	return Event{Thr: thr, Op: op.json(), Ret: ret, Inv: inv, Res: res}
+	ev := Event{Thr: thr, Op: op.json(), Ret: ret, Inv: inv, Res: res}
+	if th != nil {
+		ev.Obs, th.obs = th.obs, keep
+	}
+	return ev
 }
 
-// counters: [id, notifications, fs closes (99 = not observed: host module), fs opens, closed word != 0]
+// probes reads the closed word of every module that was handed out (IsClosed through the handle), at the end of a history.
+func (w *world) probes(ctx context.Context, th *thread, thr int, ids []int64) []Event {
+	var out []Event
+	for _, id := range ids {
+		if _, ok := w.handles.Load(id); !ok {
+			continue
+		}
+		if ev := w.timed(ctx, th, thr, Op{kIsClosed, id}); ev.Ret[0] != "skip" {
+			out = append(out, ev)
+		}
+	}
+	return out
+}
+
+// counters: [id, notifications, fs closes (99 = not observed: host module), fs opens, closed word != 0,
+// linked in Store.moduleList (1/0; -1 = the instance was never built)]
 func (w *world) counters(ids []int64) [][]int64 {
 	var out [][]int64
+	listed := map[*wasm.ModuleInstance]bool{}
+	for _, m := range wazero.VerifStore(w.r).VerifListed() {
+		listed[m] = true
+	}
 	for _, id := range ids {
 		host, _ := w.isHost.Load(id)
 		fs := ctr(&w.fsClosed, id).Load()
 		if host == true {
 			fs = 99
 		}
-		closed := int64(-1)
+		closed, inList := int64(-1), int64(-1)
 		if mi, ok := w.insts.Load(id); ok {
 			if mi.(*wasm.ModuleInstance).Closed.Load() != 0 {
 				closed = 1
 			} else {
 				closed = 0
 			}
+			inList = 0
+			if listed[mi.(*wasm.ModuleInstance)] {
+				inList = 1
+			}
 		}
-		out = append(out, []int64{id, ctr(&w.notif, id).Load(), fs, ctr(&w.fsOpened, id).Load(), closed})
+		out = append(out, []int64{id, ctr(&w.notif, id).Load(), fs, ctr(&w.fsOpened, id).Load(), closed, inList})
 	}
 	return out
 }
@@ -403,7 +534,7 @@ func genSeq(rng *c.Rng) []Op {
 			name := int64(rng.Intn(4)) // 0 = anonymous
 			if rng.Intn(5) == 0 {
 				host = 1
-				if name == 0 {
+				if name == 0 { // wasm.NewHostModule rejects an empty module name: host modules are always named
 					name = 1
 				}
 			}
@@ -469,8 +600,8 @@ func runConc(ctx context.Context, rng *c.Rng, nthreads, maxOps int) ConcCase {
 	main := &thread{idx: nthreads, w: w}
 	threads.Store(goid(), main)
 	var shared []int64
-	for i, k := 0, rng.Intn(3); i < k; i++ {
-		op := Op{kInst, 0, int64(1 + rng.Intn(3)), next}
+	for i, k := 0, rng.Intn(4); i < k; i++ {
+		op := Op{kInst, 0, int64(rng.Intn(4)), next} // name 0: anonymous
 		ids = append(ids, next)
 		ev := w.timed(ctx, main, nthreads, op)
 		if ev.Ret[0] == "ok" {
@@ -492,9 +623,12 @@ func runConc(ctx context.Context, rng *c.Rng, nthreads, maxOps int) ConcCase {
 			var op Op
 			switch k := rng.Intn(20); {
 			case k < 7:
-				op = Op{kInst, 0, int64(1 + rng.Intn(3)), next}
+				op = Op{kInst, 0, int64(rng.Intn(4)), next} // name 0: anonymous
 				if rng.Intn(8) == 0 {
 					op[1] = 1
+					if op[2] == 0 { // host modules are always named
+						op[2] = 1
+					}
 				}
 				ids = append(ids, next)
 				own = append(own, next)
@@ -554,6 +688,7 @@ func runConc(ctx context.Context, rng *c.Rng, nthreads, maxOps int) ConcCase {
 	for t := range evs {
 		cs.Events = append(cs.Events, evs[t]...)
 	}
+	cs.Events = append(cs.Events, w.probes(ctx, main, nthreads, ids)...)
 	cs.Counters = w.counters(ids)
 	_ = w.r.Close(ctx)
 	return cs
@@ -572,6 +707,9 @@ type ForcedCase struct {
 	Rets     [][][]any `json:"rets"`
 	Counters [][]int64 `json:"counters"`
 	Deadlock bool      `json:"deadlock,omitempty"`
+	// reentrant window family: where the instantiate was when Runtime.Close ran, and the model schedule (thread, steps; 0 = finish the operation)
+	Window string   `json:"window,omitempty"`
+	Blocks [][2]int `json:"blocks,omitempty"`
 }
 
 // runForced executes prog under the schedule prefix `pre` (then `pick` chooses among enabled threads);
@@ -636,7 +774,7 @@ func runForced(ctx context.Context, label string, setup []Op, prog [][]Op, atomi
 			break
 		}
 		var k int
-		if step < len(prefix) {
+		if step < len(prefix) && prefix[step] < n && !done[prefix[step]] {
 			k = prefix[step]
 		} else {
 			k = pick(enabled)
@@ -664,9 +802,59 @@ func runForced(ctx context.Context, label string, setup []Op, prog [][]Op, atomi
 		}
 		fc.Rets = append(fc.Rets, rs)
 	}
+	fc.Events = append(fc.Events, w.probes(ctx, main, n, ids)...)
 	fc.Counters = w.counters(ids)
 	_ = w.r.Close(ctx)
 	return fc, enabledLog
+}
+
+// runReentrant forces the window without any hook: the instantiate of `inst` runs user code — its start-section function
+// (flavour 1: inside Store.instantiate, i.e. after failIfClosed and before registerModule) or its "_start" export
+// (flavour 2: after registration and attachment, before InstantiateModule returns) — which calls the host function
+// n9.hook, which calls Runtime.Close on the same goroutine. Reported as the two-thread program [[inst]; [rtclose]].
+func runReentrant(ctx context.Context, label string, setup []Op, inst Op, flavour int, code int64) ForcedCase {
+	w := newWorld(ctx)
+	w.withHookBinaries(ctx)
+	w.flavour[inst[3]] = flavour
+	fc := ForcedCase{Kind: "forced", Label: label, Atomic: true, Sched: []int{0, 1, 0}, Points: []string{"hook", "done", "done"}}
+	main := &thread{idx: 2, w: w}
+	g := goid()
+	threads.Store(g, main)
+	defer threads.Delete(g)
+	var ids []int64
+	for _, op := range setup {
+		if op[0] == kInst {
+			ids = append(ids, op[3])
+		}
+		fc.Pre = append(fc.Pre, op.json())
+		fc.Events = append(fc.Events, w.timed(ctx, main, 2, op))
+	}
+	ids = append(ids, inst[3])
+	rt := Op{kRtClose, code}
+	fc.Prog = [][][]any{{inst.json()}, {rt.json()}}
+	var nested []Event
+	w.hookFn = func(hctx context.Context) {
+		if len(nested) == 0 { // once
+			nested = append(nested, w.timed(ctx, main, 1, rt))
+		}
+	}
+	ev := w.timed(ctx, main, 0, inst)
+	w.hookFn = nil
+	fc.Events = append(fc.Events, ev)
+	fc.Events = append(fc.Events, nested...)
+	fc.Rets = [][][]any{{ev.Ret}, {}}
+	for _, e := range nested {
+		fc.Rets[1] = append(fc.Rets[1], e.Ret)
+	}
+	if flavour == 1 {
+		fc.Window, fc.Blocks = "built", [][2]int{{0, 3}, {1, 0}, {0, 0}}
+	} else {
+		fc.Window, fc.Blocks = "attached", [][2]int{{0, 5}, {1, 0}, {0, 0}}
+	}
+	fc.Events = append(fc.Events, w.probes(ctx, main, 2, ids)...)
+	fc.Counters = w.counters(ids)
+	_ = w.r.Close(ctx)
+	return fc
 }
 
 // explore enumerates schedules depth-first (stateless re-execution) up to `limit`; beyond the limit it samples.
@@ -713,7 +901,12 @@ func explore(ctx context.Context, out *c.Out, rng *c.Rng, label string, setup []
 
 func alphaOp(rng *c.Rng, id int64) Op {
 	switch rng.Intn(7) {
-	case 0, 1:
+	case 0:
+		return Op{kInst, 0, 1, id}
+	case 1:
+		if rng.Intn(2) == 0 {
+			return Op{kInst, 0, 0, id} // anonymous (flavour by id)
+		}
 		return Op{kInst, 0, 1, id}
 	case 2:
 		return Op{kLook, 1}
@@ -749,6 +942,12 @@ func main() {
 			{{kInst, 0, 1, 1}, {kInst, 0, 1, 2}, {kLook, 1}, {kInst, 0, 1, 3}, {kClose, 1, 0}, {kInst, 0, 1, 4}, {kLook, 1}},
 			{{kInst, 0, 1, 1}, {kRtClose, 0}, {kCompile, 1}, {kInst, 1, 2, 2}, {kCompile, 0}, {kInst, 0, 2, 3}, {kIsClosed, 1}, {kLook, 1}},
 			{{kInst, 0, 2, 1}, {kClose, 1, 0}, {kClose, 1, 6}, {kIsClosed, 1}, {kInst, 1, 2, 2}, {kClose, 2, 4}, {kClose, 2, 0}, {kIsClosed, 2}, {kRtClose, 2}, {kRtClose, 0}},
+			// anonymous modules, all three flavours: no lookup finds them, closing through the handle is idempotent, Runtime.Close
+			// closes the ones that are alive, nothing can be instantiated afterwards
+			{{kInst, 0, 0, 1}, {kInst, 0, 0, 2}, {kInst, 0, 0, 3}, {kLook, 0}, {kClose, 2, 0}, {kIsClosed, 2}, {kClose, 2, 5}, {kInst, 0, 0, 4}, {kIsClosed, 1},
+				{kRtClose, 3}, {kIsClosed, 1}, {kIsClosed, 3}, {kIsClosed, 4}, {kIsClosed, 2}, {kInst, 0, 0, 5}, {kInst, 0, 0, 6}, {kInst, 0, 0, 7}, {kCompile, 0}},
+			{{kInst, 0, 0, 1}, {kInst, 0, 1, 2}, {kInst, 1, 2, 3}, {kRtClose, 0}, {kIsClosed, 1}, {kIsClosed, 2}, {kIsClosed, 3}, {kInst, 0, 0, 4}, {kInst, 1, 1, 5},
+				{kClose, 1, 7}, {kIsClosed, 1}, {kRtClose, 4}, {kLook, 1}},
 		}
 		for _, ops := range fixed {
 			out.Emit(runSeq(ctx, ops))
@@ -799,6 +998,116 @@ func main() {
 				}
 			}
 			explore(ctx, out, rng, fmt.Sprintf("rand%d", p), setup, prog, p%4 != 3, *limit)
+		}
+		windowFamilies(ctx, out, rng, *limit)
+	}
+}
+
+// runNotifyWindow observes a Runtime.Close from the inside, deterministically and without any hook: the close notification
+// of instance `at` (user code) runs in the middle of the locked loop of Store.CloseWithExitCode — the runtime's flag is set,
+// the newer modules are closed, the older ones are not yet — and performs `nested` (lock-free operations only: compile,
+// IsClosed). This is the window of open finding F33.
+func runNotifyWindow(ctx context.Context, label string, setup []Op, code int64, at int64, nested []Op) ForcedCase {
+	w := newWorld(ctx)
+	fc := ForcedCase{Kind: "forced", Label: label, Atomic: true, Window: "sweeping"}
+	main := &thread{idx: 2, w: w}
+	g := goid()
+	threads.Store(g, main)
+	defer threads.Delete(g)
+	var ids []int64
+	for _, op := range setup {
+		if op[0] == kInst {
+			ids = append(ids, op[3])
+		}
+		fc.Pre = append(fc.Pre, op.json())
+		fc.Events = append(fc.Events, w.timed(ctx, main, 2, op))
+	}
+	rt := Op{kRtClose, code}
+	po := [][]any{}
+	for _, op := range nested {
+		po = append(po, op.json())
+	}
+	fc.Prog = [][][]any{{rt.json()}, po}
+	var inner []Event
+	fired := false
+	w.notifyFn = func(id int64) {
+		if id == at && !fired {
+			fired = true
+			for _, op := range nested {
+				inner = append(inner, w.timed(ctx, main, 1, op))
+			}
+		}
+	}
+	ev := w.timed(ctx, main, 0, rt)
+	w.notifyFn = nil
+	fc.Events = append(fc.Events, ev)
+	fc.Events = append(fc.Events, inner...)
+	fc.Events = append(fc.Events, w.probes(ctx, main, 2, ids)...)
+	fc.Counters = w.counters(ids)
+	_ = w.r.Close(ctx)
+	return fc
+}
+
+// windowFamilies: Runtime.Close runs to completion while an instantiate sits between two of its atomic steps.
+// A named module (1), an anonymous module (5) and a host module (6) are alive when the runtime is closed.
+// (Host modules are always named: wasm.NewHostModule rejects an empty name.)
+func windowFamilies(ctx context.Context, out *c.Out, rng *c.Rng, limit int) {
+	alive := []Op{{kInst, 0, 1, 1}, {kInst, 0, 0, 5}, {kInst, 1, 3, 6}}
+	first := func(en []int) int { return en[0] }
+	type target struct {
+		tag string
+		op  Op
+	}
+	targets := []target{
+		{"anon-empty-name", Op{kInst, 0, 0, 21}},   // WithName("")
+		{"anon-no-name", Op{kInst, 0, 0, 22}},      // no WithName, no name section
+		{"anon-named-binary", Op{kInst, 0, 0, 23}}, // name section overridden by WithName("")
+		{"named", Op{kInst, 0, 2, 24}},
+		{"host-named", Op{kInst, 1, 2, 26}},
+	}
+	thirds := []Op{{kCompile, 0}, {kLook, 1}, {kInst, 0, 0, 27}, {kClose, 5, 0}, {kInst, 0, 2, 28}, {kIsClosed, 5}}
+	for ti, tg := range targets {
+		for _, code := range []int64{0, 3} {
+			prog := [][]Op{{tg.op}, {{kRtClose, code}}}
+			// thread 0 stops after Store.instantiate (before registerModule); thread 1 closes the runtime; thread 0 goes on
+			fc, _ := runForced(ctx, "win:built/"+tg.tag, alive, prog, true, false, []int{0, 1}, first)
+			out.Emit(fc)
+			// thread 0 registers and stops before attaching the notifier; thread 1 closes the runtime; thread 0 goes on
+			fc, _ = runForced(ctx, "win:registered/"+tg.tag, alive, prog, true, false, []int{0, 0, 1}, first)
+			out.Emit(fc)
+			// the same without close-atomicity (the refused instance's own Close yields after its CAS)
+			fc, _ = runForced(ctx, "win:built-free/"+tg.tag, alive, prog, false, false, []int{0, 1}, first)
+			out.Emit(fc)
+		}
+		prog := [][]Op{{tg.op}, {{kRtClose, 0}}}
+		explore(ctx, out, rng, "winx:"+tg.tag, alive, prog, true, limit)
+		explore(ctx, out, rng, "winx-free:"+tg.tag, alive, prog, false, limit)
+		for k := 0; k < 3; k++ {
+			third := thirds[(ti+2*k)%len(thirds)]
+			prog3 := [][]Op{{tg.op}, {{kRtClose, 0}}, {third}}
+			explore(ctx, out, rng, "win3:"+tg.tag, alive, prog3, true, limit/5)
+		}
+		// two anonymous/named instantiates racing one close
+		prog2 := [][]Op{{tg.op}, {{kRtClose, 5}}, {{kInst, 0, 0, 29}}}
+		explore(ctx, out, rng, "win2i:"+tg.tag, alive, prog2, ti%2 == 0, limit/4)
+	}
+	// Runtime.Close seen from inside its sweep (F33): the notification of the newest module (5, anonymous) runs user code
+	// while the older named module 1 is still open. First the flag (compile fails) against an open module; then the
+	// closed words of two modules, newest first.
+	two := []Op{{kInst, 0, 1, 1}, {kInst, 0, 0, 5}}
+	out.Emit(runNotifyWindow(ctx, "reent:notify/flag-before-sweep", two, 0, 5, []Op{{kCompile, 0}, {kIsClosed, 1}}))
+	out.Emit(runNotifyWindow(ctx, "reent:notify/module-by-module", two, 3, 5, []Op{{kIsClosed, 5}, {kIsClosed, 1}}))
+	// user code inside InstantiateModule closes the runtime (no hook involved)
+	setupR := []Op{{kInst, 1, 9, 90}, {kInst, 0, 1, 1}, {kInst, 0, 0, 5}}
+	for _, tg := range []target{{"anon", Op{kInst, 0, 0, 30}}, {"named", Op{kInst, 0, 2, 31}}} {
+		for fl, win := range []string{"", "start-section", "start-export"} {
+			for _, code := range []int64{0, 3} {
+				// a "_start" that finds its module closed with a non-zero exit code makes InstantiateModule return that
+				// exit error (and the closed module): outside the registry's result alphabet, so only Close(ctx) there
+				if fl == 1 || (fl == 2 && code == 0) {
+					out.Emit(runReentrant(ctx, "reent:"+win+"/"+tg.tag, setupR, tg.op, fl, code))
+				}
+			}
 		}
 	}
 }
